@@ -57,6 +57,11 @@ Kernels == {
     K("nocolon", << "10 C=C+1 INPUT A:PRINT C;A", "20 GOSUB 100 INPUT A$", "30 PRINT C A$ C+1", "40 END", "100 C=C+10 RETURN" >>),
     \* strings made by coercion (a numeric DATA item or reply read into a string variable) are strings like any other
     K("coerce",  << "10 DATA 5,2.5,abc", "20 READ A$,B$,C$:PRINT A$=\"5\";A$<>\"5\";B$=\"2.5\";C$=\"abc\";A$<\"6\"", "30 INPUT D$:PRINT D$=\"5\";D$=A$;D$+A$" >>),
+    \* lines that are nothing but a jump: each is still one statement, one call
+    K("tramp",   << "10 GOTO 30", "20 PRINT \"no\"", "30 GOTO 50", "40 PRINT \"no\"", "50 PRINT \"end\";:GOSUB 70", "60 END", "70 GOTO 80", "80 RETURN" >>),
+    \* a second store of the wrong kind under a name that already holds a value
+    K("kinds7",  << "10 X=1:X=\"HI\"" >>), K("kinds8", << "10 A$=\"YO\":A$=5" >>), K("kinds9", << "10 FOR I=1 TO 2:I=\"s\":NEXT I" >>),
+    K("kinds10", << "10 DEF F(X,Y)=X:PRINT F(1,\"B\")", "20 DIM B(2):B(1)=1:B(1)=\"s\"" >>),
     K("input2",  << "10 IF 1 THEN INPUT X ELSE PRINT \"NO\"", "20 GOSUB 100:PRINT X;S$", "30 IF 0 THEN PRINT 1 ELSE INPUT Q(2):PRINT Q(2)", "40 END",
                     "100 INPUT S$:RETURN" >>)
 }
@@ -101,7 +106,9 @@ MCtxs == { [n |-> "alone", a |-> B("10 "), z |-> <<>>],
            \* an ELSE behind a THEN clause of several statements is a syntax error when reached -- also after a break and CONT
            [n |-> "thenmoreelse", a |-> B("10 IF X THEN PRINT \"p\";:"), z |-> B(" ELSE PRINT \"e\";")],
            \* no colons at all: a statement ends where its last expression ends
-           [n |-> "nocolon", a |-> B("10 X=X+1 "), z |-> B(" Z=X+2 PRINT \"z\";Z")] }
+           [n |-> "nocolon", a |-> B("10 X=X+1 "), z |-> B(" Z=X+2 PRINT \"z\";Z")],
+           \* the IF is not the first statement of its line
+           [n |-> "midthenelse", a |-> B("10 PRINT \"a\";:IF X THEN "), z |-> B(" ELSE PRINT \"e\";")] }
 MatrixKernels == { [name |-> st.n \o "_" \o cx.n,
                     lines |-> << B("5 X=1:DEF F(Y)=Y*2:DATA 1,d,2,e:FOR I=1 TO 2"), cx.a \o st.s \o cx.z,
                                  B("20 PRINT \"|\";X;I:IF I<2 THEN NEXT I"), B("30 END"), B("100 PRINT \"sub\";:RETURN") >>]
